@@ -290,3 +290,106 @@ Proof.
   rewrite line_row_parse by (try exact Hm; lia).
   rewrite IH by (try exact Hw'; lia). reflexivity.
 Qed.
+
+(* ------------------------------------------------------------------------------------------ *)
+(* the label map built from the two tables *)
+Lemma hm_update_fresh k f m : ~ In k (map fst m) -> hm_update k f m = m ++ [(k, f (mkSym 0 0 false))].
+Proof.
+  induction m as [|[k' v'] m IH]; intro H; [reflexivity|]. cbn [hm_update app].
+  destruct (str_eqb k k') eqn:E.
+  - apply str_eqb_eq in E. exfalso. apply H. left. cbn. congruence.
+  - rewrite IH; [reflexivity|]. intro Hin. apply H. right. exact Hin.
+Qed.
+Lemma hm_update_present k f m : NoDup (map fst m) -> In k (map fst m) ->
+  hm_update k f m = map (fun q => if str_eqb k (fst q) then (fst q, f (snd q)) else q) m.
+Proof.
+  induction m as [|[k' v'] m IH]; intros Hnd Hin; [destruct Hin|]. cbn [hm_update map fst snd].
+  cbn [map fst] in Hnd. inversion Hnd as [|? ? Hn Hnd']; subst.
+  destruct (str_eqb k k') eqn:E.
+  - apply str_eqb_eq in E. subst k'. f_equal. symmetry. rewrite <- (map_id m) at 2. apply map_ext_in. intros q Hq.
+    destruct (str_eqb k (fst q)) eqn:E2; [|reflexivity]. apply str_eqb_eq in E2. exfalso. apply Hn. rewrite E2. apply in_map. exact Hq.
+  - f_equal. apply IH; [exact Hnd'|]. destruct Hin as [Hin|Hin]; [|exact Hin]. cbn in Hin. subst. rewrite str_eqb_refl in E. discriminate.
+Qed.
+
+Definition strip_src (p : str * symdata) : str * symdata := (fst p, mkSym (sd_addr (snd p)) 0 (sd_external (snd p))).
+
+Lemma fold_sym_update entries : forall acc, NoDup (map fst (acc ++ entries)) ->
+  fold_left (fun m '(addr, ext, l) => hm_update l (fun d => mkSym addr (sd_src_start d) ext) m)
+            (map (fun p : str * symdata => (sd_addr (snd p), sd_external (snd p), fst p)) entries) acc
+  = acc ++ map strip_src entries.
+Proof.
+  induction entries as [|p entries IH]; intros acc H; [rewrite app_nil_r; reflexivity|].
+  cbn [map fold_left]. rewrite hm_update_fresh.
+  - rewrite IH.
+    + rewrite <- app_assoc. reflexivity.
+    + rewrite <- app_assoc. rewrite map_app in *. cbn [map fst app] in *. exact H.
+  - rewrite map_app in H. cbn [map] in H. apply NoDup_remove_2 in H. intro Hin. apply H. apply in_or_app. left. exact Hin.
+Qed.
+
+Lemma fold_idx_update (S : list (str * symdata)) : NoDup (map fst S) ->
+  forall E (h : str * symdata -> str * symdata),
+  (forall q, In q S -> fst (h q) = fst q /\ mkSym (sd_addr (snd (h q))) (sd_src_start (snd q)) (sd_external (snd (h q))) = snd q) ->
+  (forall p, In p E -> In p S) ->
+  fold_left (fun m p => hm_update (fst p) (fun d => mkSym (sd_addr d) (snd p) (sd_external d)) m)
+            (map (fun p : str * symdata => (fst p, sd_src_start (snd p))) E) (map h S)
+  = map (fun q => if existsb (fun p => str_eqb (fst p) (fst q)) E then q else h q) S.
+Proof.
+  intros Hnd. induction E as [|p E IH]; intros h Hh Hsub; [reflexivity|].
+  cbn [map fold_left fst snd].
+  rewrite hm_update_present.
+  2:{ rewrite map_map. erewrite map_ext_in; [exact Hnd|]. intros q Hq. apply Hh. exact Hq. }
+  2:{ rewrite map_map. assert (Hp : In p S) by (apply Hsub; left; reflexivity).
+      apply in_map_iff. exists p. split; [apply Hh; exact Hp|exact Hp]. }
+  rewrite map_map.
+  rewrite (map_ext_in _ (fun q => if str_eqb (fst p) (fst q) then q else h q)).
+  2:{ intros q Hq. destruct (Hh q Hq) as [H1 H2]. rewrite H1. destruct (str_eqb (fst p) (fst q)) eqn:E1; [|reflexivity].
+      apply str_eqb_eq in E1. assert (Hp : In p S) by (apply Hsub; left; reflexivity).
+      assert (p = q).
+      { clear -Hnd Hp Hq E1. induction S as [|x S IH]; [destruct Hp|]. cbn [map] in Hnd. inversion Hnd as [|? ? Hn Hnd']; subst.
+        destruct Hp as [->|Hp], Hq as [->|Hq]; [reflexivity| | |apply IH; assumption].
+        - exfalso. apply Hn. rewrite E1. apply in_map. exact Hq.
+        - exfalso. apply Hn. rewrite <- E1. apply in_map. exact Hp. }
+      subst q. cbn [fst snd]. rewrite H2. destruct p; reflexivity. }
+  rewrite IH.
+  - apply map_ext_in. intros q Hq. cbn [existsb]. destruct (str_eqb (fst p) (fst q)); cbn [orb]; [|reflexivity].
+    destruct (existsb _ E); reflexivity.
+  - intros q Hq. destruct (str_eqb (fst p) (fst q)).
+    + split; [reflexivity|]. destruct q as [n [a s e]]; reflexivity.
+    + apply Hh. exact Hq.
+  - intros q Hq. apply Hsub. right. exact Hq.
+Qed.
+
+(* insertion sort is a permutation *)
+Lemma insert_by_perm {A} (lt : A -> A -> bool) x l : Permutation (insert_by lt x l) (x :: l).
+Proof.
+  induction l as [|y l IH]; [apply Permutation_refl|]. cbn [insert_by]. destruct (lt x y); [apply Permutation_refl|].
+  eapply Permutation_trans; [apply perm_skip; exact IH|apply perm_swap].
+Qed.
+Lemma sort_by_perm {A} (lt : A -> A -> bool) l : Permutation (sort_by lt l) l.
+Proof.
+  unfold sort_by. induction l as [|x l IH]; [apply Permutation_refl|]. cbn [fold_right].
+  eapply Permutation_trans; [apply insert_by_perm|apply perm_skip; exact IH].
+Qed.
+
+Lemma label_table_roundtrip labels : NoDup (map fst labels) ->
+  fold_left (fun m p => hm_update (fst p) (fun d => mkSym (sd_addr d) (snd p) (sd_external d)) m)
+            (map (fun p : str * symdata => (fst p, sd_src_start (snd p))) (sort_by idx_lt labels))
+            (map strip_src (sort_by sym_lt labels))
+  = sort_by sym_lt labels.
+Proof.
+  intro Hnd.
+  assert (HndS : NoDup (map fst (sort_by sym_lt labels))).
+  { eapply Permutation_NoDup; [|exact Hnd]. apply Permutation_map. apply Permutation_sym. apply sort_by_perm. }
+  rewrite (fold_idx_update (sort_by sym_lt labels) HndS (sort_by idx_lt labels) strip_src).
+  - rewrite <- (map_id (sort_by sym_lt labels)) at 2. apply map_ext_in. intros q Hq.
+    destruct (existsb _ (sort_by idx_lt labels)) eqn:E; [reflexivity|]. exfalso.
+    assert (Hin : In q (sort_by idx_lt labels)).
+    { eapply Permutation_in; [apply Permutation_sym; apply sort_by_perm|].
+      eapply Permutation_in; [apply sort_by_perm|exact Hq]. }
+    assert (existsb (fun p => str_eqb (fst p) (fst q)) (sort_by idx_lt labels) = true)
+      by (apply existsb_exists; exists q; split; [exact Hin|apply str_eqb_refl]).
+    congruence.
+  - intros q Hq. split; [reflexivity|]. destruct q as [n [a s e]]; reflexivity.
+  - intros p Hp. eapply Permutation_in; [apply Permutation_sym; apply sort_by_perm|].
+    eapply Permutation_in; [apply sort_by_perm|exact Hp].
+Qed.
